@@ -124,7 +124,9 @@ def oracle_paths(n, W, sources, sinks, scheme, num_paths, cutoff, got_paths, got
     return obs
 
 
-def paths_job(n, edges, sources, sinks, scheme='subtract', num_paths=math.inf, only_top=False, conserved=False):
+def paths_job(n, edges, sources, sinks, scheme='subtract', num_paths=math.inf, only_top=False, conserved=False, arg_form='list'):
+    # arg_form: how sources / sinks are handed over (list, tuple or integer ndarray): the result must not depend on it
+    form = {'list': list, 'tuple': tuple, 'ndarray': (lambda x: np.array(list(x), dtype=int))}[arg_form]
     pm = loader.load('enspara.tpt.path')
     edges = [tuple(e) for e in edges]
 
@@ -151,11 +153,11 @@ def paths_job(n, edges, sources, sinks, scheme='subtract', num_paths=math.inf, o
         exc = None
         try:
             if only_top:
-                p, f = pm.top_path(list(sources), list(sinks), F)
+                p, f = pm.top_path(form(sources), form(sinks), F)
                 has = not (isinstance(f, float) and math.isinf(f))
                 gp, gf = ([list(cells(p))], [f]) if has else ([], [])
             else:
-                ps, fs = pm.paths(list(sources), list(sinks), F, remove_path=scheme, num_paths=num_paths, flux_cutoff=cutoff)
+                ps, fs = pm.paths(form(sources), form(sinks), F, remove_path=scheme, num_paths=num_paths, flux_cutoff=cutoff)
                 gp, gf = [list(cells(p)) for p in ps], list(cells(fs))
         except Exception as e:
             exc = e
@@ -164,17 +166,17 @@ def paths_job(n, edges, sources, sinks, scheme='subtract', num_paths=math.inf, o
             Wc = [[float(ev(model, x)) if isinstance(x, SVal) else 0.0 for x in row] for row in W]
             cv = float(ev(model, cutoff))
             exact = all(float(ev(model, x)) == ev(model, x) for x in wv.values())
-            out = {'inputs': {'net_flux': Wc, 'sources': list(sources), 'sinks': list(sinks), 'remove_path': scheme,
+            out = {'inputs': {'net_flux': Wc, 'sources': list(sources), 'sinks': list(sinks), 'sources_and_sinks_passed_as': arg_form, 'remove_path': scheme,
                               'num_paths': 'inf' if num_paths == math.inf else num_paths, 'flux_cutoff': cv,
                               'only_top_path': only_top}}
             Fc = np.array(Wc)
             with core.concrete_mode():
                 try:
                     if only_top:
-                        p2, f2 = pm.top_path(list(sources), list(sinks), Fc)
+                        p2, f2 = pm.top_path(form(sources), form(sinks), Fc)
                         g2p, g2f = ([[int(x) for x in p2]], [float(f2)]) if not np.isinf(f2) else ([], [])
                     else:
-                        ps2, fs2 = pm.paths(list(sources), list(sinks), Fc, remove_path=scheme, num_paths=num_paths,
+                        ps2, fs2 = pm.paths(form(sources), form(sinks), Fc, remove_path=scheme, num_paths=num_paths,
                                             flux_cutoff=cv)
                         g2p, g2f = [[int(x) for x in p] for p in ps2], [float(x) for x in fs2]
                 except Exception as e:
@@ -276,6 +278,8 @@ def jobs(tier):
             tag = ''.join('%d%d' % e for e in pat)
             add('n=4,%s,conserved' % tag, n=4, edges=pat, sources=[0], sinks=[3], scheme='subtract', conserved=True)
             add('n=4,%s,two-sources' % tag, n=4, edges=pat, sources=[0, 1], sinks=[3], scheme='subtract')
+            add('n=4,%s,two-sources as tuple' % tag, n=4, edges=pat, sources=[0, 1], sinks=[3], scheme='subtract', arg_form='tuple')
+            add('n=4,%s,two-sources as ndarray,conserved' % tag, n=4, edges=pat, sources=[0, 1], sinks=[3], scheme='subtract', arg_form='ndarray')
     else:
         for pat in all_patterns(4):
             if len(pat) <= 6 and any(i > j for i, j in pat) and len(pat) >= 3:
